@@ -1,14 +1,21 @@
 (* C06 - signatures are bound to context, mode and pre-hash function.
-   FULL STATEMENT (reduction, not yet proved end-to-end): (M,ctx,mode) <> (M',ctx',mode') -> both
-   verify under the same (pk, sig) -> an explicit SHAKE256 / pre-hash collision.
-   Proved here: the formatted message M' is an injective function of (domain byte, context,
-   body) on all accepted contexts, the two domain bytes differ, and OID || digest determines the
-   pre-hash function and the digest - the part of the argument that is about THIS code's
-   formatting (domain bytes, length byte expression and OID table are regenerated from the
-   source by T2/T3). *)
-Require Import F204.Base.Util F204.Base.Mach F204.Gen.Params F204.Gen.Guards F204.Gen.Oids F204.Proofs.Format.
+   The guarantee is cryptographic; what is proved is the strongest true statement: a REDUCTION.
+   If one (public key, signature) pair verifies under two different interpretations
+   (message, context, mode / pre-hash function), then an explicit SHAKE256 collision or an explicit
+   collision of the pre-hash function exists (Proofs/Binding.v, built on the formatting
+   injectivity of Proofs/Format.v; domain bytes, length-byte expression and OID table are
+   regenerated from the source by T2/T3 on every run).  H ranges over ALL hash functions. *)
+Require Import F204.Base.Util F204.Base.Mach F204.Gen.Params F204.Gen.Guards F204.Gen.Oids F204.Hash.HashIface
+  F204.Impl.Hashing F204.Impl.MlDsa F204.Impl.Api F204.Proofs.Format F204.Proofs.Binding.
 Open Scope Z_scope.
 
+Theorem C06_binding_reduction : forall H P pk sig it1 M1 ctx1 it2 M2 ctx2,
+  api_verify H P pk it1 M1 sig ctx1 = Ok true -> api_verify H P pk it2 M2 sig ctx2 = Ok true ->
+  (it1, M1, ctx1) <> (it2, M2, ctx2) ->
+  shake256_collision H \/ prehash_collision H.
+Proof. exact binding_interp. Qed.
+
+(* the ingredients that are about this code's formatting *)
 Theorem C06_fmt_injective : forall d d' ctx ctx' body body',
   zlen ctx <= 255 -> zlen ctx' <= 255 ->
   fmt d ctx body = fmt d' ctx' body' -> d = d' /\ ctx = ctx' /\ body = body'.
@@ -18,17 +25,16 @@ Proof. exact domains_distinct. Qed.
 Theorem C06_hash_body_injective : forall p p' phm phm',
   ph_oid p ++ phm = ph_oid p' ++ phm' -> p = p' /\ phm = phm'.
 Proof. exact hash_body_injective. Qed.
-(* consequence: no split of ctx || M other than the signed one yields the same M' *)
 Theorem C06_no_other_split : forall d ctx M ctx' M',
-  zlen ctx <= 255 -> zlen ctx' <= 255 -> ctx ++ M = ctx' ++ M' -> (ctx, M) <> (ctx', M') ->
-  fmt d ctx M <> fmt d ctx' M'.
+  zlen ctx <= 255 -> zlen ctx' <= 255 -> (ctx, M) <> (ctx', M') -> fmt d ctx M <> fmt d ctx' M'.
 Proof.
-  intros d ctx M ctx' M' H1 H2 _ Hne E. apply fmt_injective in E; [|assumption|assumption].
+  intros d ctx M ctx' M' H1 H2 Hne E. apply fmt_injective in E; [|assumption|assumption].
   destruct E as (_ & -> & ->). now apply Hne.
 Qed.
 Example C06_nonvacuous : fmt 0 [1;2] [3] <> fmt 0 [1] [2;3] /\ [1;2] ++ [3] = [1] ++ [2;3].
 Proof. split; [discriminate|reflexivity]. Qed.
 
+Print Assumptions C06_binding_reduction.
 Print Assumptions C06_fmt_injective.
 Print Assumptions C06_domains_distinct.
 Print Assumptions C06_hash_body_injective.
